@@ -164,7 +164,7 @@ PROPS["C16"] = {
 PROPS["C12"] = {
     "level": "model_checking",
     "technique": "explicit-state BFS over triggers, value changes, SYNCs, ticks, NMT changes and parameter writes against a reference TPDO model (71 parameter configurations) + exhaustive sweep over all mapping compositions",
-    "text": "(a) 71 configurations (69, 70: TPDO0 starts as a synchronous TPDO of type 1 / 2 and is re-typed to 254/255 and back by the legal procedure in any NMT state - event SDO 1800h:2=1; 60..68 repeat nine of the others with the two TPDOs being numbers 2 and 3 instead of 0 and 1 - 1802h/1A02h, 1803h/1A03h, lower numbers absent; 36..53 with two event-driven TPDOs, the CiA 301 re-mapping procedure of TPDO0 to 1 or 3 objects while OPERATIONAL and a changed asynchronous object of TPDO1 as additional events; 54..59 with both TPDOs living on inhibit/event timers of their own - (inhibit,event) pairs (3,2|2,0) (3,2|0,3) (0,3|0,4) (2,4|3,3) (0,3|2,0) (3,0|2,2) ticks, i.e. event time shorter than inhibit time, expiries that do not transmit, timer ids handed from one TPDO to the other): TPDO0 event-driven (type 254/255) x inhibit {0,2,3 ticks} x event time {0,3,4 ticks}, mapped to an asynchronous 8-bit and a 16-bit object; TPDO1 synchronous of type {1,2,3,240}; started in PRE-OP or OPERATIONAL. 21 events: COTPdoTrigPdo, COTPdoTrigObj, dictionary write of the asynchronous object with a changed / an unchanged value, write of the other mapped object, SYNC, tick, NMT start/pre-op/stop/reset communication, SDO writes to 1800h:1 (invalidate/re-validate), :2, :3, :5. Per step the TPDO frames (identifier, DLC, data; in order per identifier, the order among different TPDOs within one step being unspecified) and the COPdoTransmit calls must equal the reference model: only in OPERATIONAL with a valid COB-ID, immediate transmission on a trigger unless the inhibit time runs, exactly one transmission at the end of the inhibit time for any number of triggers, event-timer transmissions exactly one event time after the last transmission, ties inhibit-first, type n on every n-th SYNC. (b) all 223 ordered compositions of 1..8 mapped objects of 1/2/3/4 bytes (<= 8 bytes) x two value patterns: frame == little-endian concatenation, DLC == mapped bytes.",
+    "text": "(a) 71 configurations (69, 70: TPDO0 starts as a synchronous TPDO of type 1 / 2 and is re-typed to 254/255 and back by the legal procedure in any NMT state - event SDO 1800h:2=1; 60..68 repeat nine of the others with the two TPDOs being numbers 2 and 3 instead of 0 and 1 - 1802h/1A02h, 1803h/1A03h, lower numbers absent; 36..53 with two event-driven TPDOs, the CiA 301 re-mapping procedure of TPDO0 to 1 or 3 objects while OPERATIONAL and a changed asynchronous object of TPDO1 as additional events; 54..59 with both TPDOs living on inhibit/event timers of their own - (inhibit,event) pairs (3,2|2,0) (3,2|0,3) (0,3|0,4) (2,4|3,3) (0,3|2,0) (3,0|2,2) ticks, i.e. event time shorter than inhibit time, expiries that do not transmit, timer ids handed from one TPDO to the other; TPDO1 maps the 32-bit asynchronous object there and its value changes in the upper byte only): TPDO0 event-driven (type 254/255) x inhibit {0,2,3 ticks} x event time {0,3,4 ticks}, mapped to an asynchronous 8-bit and a 16-bit object; TPDO1 synchronous of type {1,2,3,240}; started in PRE-OP or OPERATIONAL. 21 events: COTPdoTrigPdo, COTPdoTrigObj, dictionary write of the asynchronous object with a changed / an unchanged value, write of the other mapped object, SYNC, tick, NMT start/pre-op/stop/reset communication, SDO writes to 1800h:1 (invalidate/re-validate), :2, :3, :5. Per step the TPDO frames (identifier, DLC, data; in order per identifier, the order among different TPDOs within one step being unspecified) and the COPdoTransmit calls must equal the reference model: only in OPERATIONAL with a valid COB-ID, immediate transmission on a trigger unless the inhibit time runs, exactly one transmission at the end of the inhibit time for any number of triggers, event-timer transmissions exactly one event time after the last transmission, ties inhibit-first, type n on every n-th SYNC. (b) all 223 ordered compositions of 1..8 mapped objects of 1/2/3/4 bytes (<= 8 bytes) x two value patterns: frame == little-endian concatenation, DLC == mapped bytes.",
     "note": "a write to 18xxh:5 while the inhibit time runs ends the inhibit time and sends a waiting transmission (the behaviour the repository's unit test pins down); explicit triggers of the synchronous TPDO and inhibit on synchronous TPDOs are outside the statement and not in the alphabet; depth-bounded",
     "jobs": {
         "quick": [J("c12", c, depth=7, deadline=100, allow_dead=True) for c in range(71)] + [J("c12map")],
